@@ -132,8 +132,8 @@ def r_vals(a):
             out.append("0")
         elif isinstance(x, int) and not isinstance(x, bool):
             out.append(str(x))
-        elif isinstance(x, str):
-            continue
+        elif isinstance(x, (str, set, frozenset)):
+            continue          # texts (and cbor's sets) are results whose content is not compared
         else:
             out.append("?" + type(x).__name__)
     return "a" + ".".join(out)
